@@ -1,4 +1,5 @@
 import ScrapliProps.C13Lemmas
+import ScrapliProps.C13FaultLemmas
 /-
   C13 — the device receives exactly the lines given, and failures stop the run.
   Property theorems only (definitions of the vocabulary and helper lemmas: C13Lemmas.lean).
@@ -829,5 +830,195 @@ example : recordFailed (respMarkers (.str "% Inv".toList)) "x % Invalid".toList 
 /-- `wire_parses_back`: hypotheses met by a UTF-8 line and an empty line -/
 example : devLines (wireOf Gen.Send.returnCharDefault
     [(⟨.user, (), "é a".toList⟩ : Entry Unit), ⟨.nav, (), []⟩]) = [encode "é a".toList, []] := by decide
+
+/-! ## the failing channel (ScrapliModel/SendFault.lean)
+
+  One `send_input` call of a user line (or of an abort line) raises ScrapliTimeout / ScrapliConnectionError at one of
+  four points (`Point`).  `k` = how many such calls succeed before it (`FSt.fuel`).  For EVERY environment,
+  configuration, list, `k`, point and exception class. -/
+
+/-- **GenericDriver.send_commands over a failing channel.**  With `n` the number of lines the fault-free run sends
+    (`Delivered`): a failure at call `k < n` surfaces as exactly the channel's exception class; the device log is the
+    old log, the first `k` lines (each once, in order) and — only when the failure came after the return — line `k`;
+    the wire is each of those lines + one return followed by what the failing call had written (nothing / the line /
+    the line and one return): nothing is written after the failed line.  A failure scheduled at `k ≥ n` is never
+    reached: the run is the fault-free run. -/
+theorem fault_delivery_exact_generic (env : Env μ) (ret : Str) (flt : Fault) (o : Origin) (fwc : Fwc) (stop eager : Bool)
+    (commands : List Str) (st : St μ) (hne : commands ≠ []) :
+    ∃ n, Delivered env ret o fwc stop eager commands st (genericSendCommands env ret o fwc stop eager commands st) n ∧
+      (∀ k, k < n → ∃ fs, genericSendCommandsF env ret flt o fwc stop eager commands ⟨st, k⟩ = .fault flt.kind fs ∧
+        fs.st.log = st.log ++ entries env o (commands.take k) st.mode ++
+          partialEntries o flt.point (finalMode env (commands.take k) st.mode) (commands.getD k []) ∧
+        fs.st.writes.flatten = st.writes.flatten ++ wireOf ret (entries env o (commands.take k) st.mode) ++
+          partialWire ret flt.point (commands.getD k []) ∧
+        fs.st.belief = st.belief) ∧
+      (∀ k, n ≤ k → genericSendCommandsF env ret flt o fwc stop eager commands ⟨st, k⟩ =
+        .ok ((genericSendCommands env ret o fwc stop eager commands st).resps,
+             (genericSendCommands env ret o fwc stop eager commands st).err)
+          ⟨(genericSendCommands env ret o fwc stop eager commands st).st, k - n⟩) := by
+  obtain ⟨n, hd⟩ := generic_spec env ret o fwc stop eager commands st hne
+  have hc := genericCount_eq_n env ret o fwc stop eager commands st _ n hd
+  refine ⟨n, hd, ?_, ?_⟩
+  · intro k hk
+    refine ⟨⟨faultState env ret o flt.point commands k st, 0⟩, ?_, faultState_obs env ret o flt.point commands k st⟩
+    rw [genericF_eq, hc, if_pos hk]
+  · intro k hk
+    rw [genericF_eq, hc, if_neg (by omega)]
+
+/-- **send_configs over a failing channel** (prechecks pass, navigation succeeds — otherwise no line is sent at all,
+    `delivery_exact`).  A failure while line `k < n` is being sent: the caller gets the channel's exception class; the
+    device log is navigation, then the first `k` lines each once in order, then line `k` only if the failure came after
+    its return; the wire ends with what the failing call had written; **no abort line, no later line, no extra
+    return** (also with stop_on_failed and also when an earlier line had failed — `_abort_config` is not reached);
+    the driver still believes it is at the configuration level it had acquired. -/
+theorem fault_delivery_exact (env : Env μ) (cfg : Cfg) (flt : Fault) (fwc : Fwc) (stop : Bool) (priv : Str) (eager : Bool)
+    (configs : List Str) (st : St μ) (hne : configs ≠ []) (hg : cfg.genericMode = false)
+    (hv : (!priv.isEmpty && !hasLevel cfg priv) = false)
+    (hacq : (acquireIfNeeded env cfg (configsTarget priv) st).2 = none) :
+    ∃ (navs : List (Entry μ)) (st1 : St μ) (n : Nat),
+      Ext cfg.ret st st1 navs ∧ (∀ e ∈ navs, e.origin = .nav) ∧ st1.belief = configsTarget priv ∧
+      Delivered env cfg.ret .user (preConfigsFwc cfg.defaultMarkers fwc) stop eager configs st1
+        (sendConfigsCore env cfg .user fwc stop priv eager configs st) n ∧
+      ∀ k, k < n → ∃ fs news, sendConfigsF env cfg flt fwc stop priv eager configs ⟨st, k⟩ = .fault flt.kind fs ∧
+        news = navs ++ entries env .user (configs.take k) st1.mode ++
+          partialEntries .user flt.point (finalMode env (configs.take k) st1.mode) (configs.getD k []) ∧
+        fs.st.log = st.log ++ news ∧
+        fs.st.writes.flatten = st.writes.flatten ++ wireOf cfg.ret navs ++
+          wireOf cfg.ret (entries env .user (configs.take k) st1.mode) ++ partialWire cfg.ret flt.point (configs.getD k []) ∧
+        (∀ e ∈ news, e.origin ≠ .abort) ∧ userLines (navs ++ entries env .user (configs.take k) st1.mode) = configs.take k ∧
+        fs.st.belief = configsTarget priv := by
+  obtain ⟨navs, h1, h2, h3, _⟩ := acquireIfNeeded_spec env cfg (configsTarget priv) st
+  obtain ⟨n, hd⟩ := generic_spec env cfg.ret .user (preConfigsFwc cfg.defaultMarkers fwc) stop eager configs
+    (acquireIfNeeded env cfg (configsTarget priv) st).1 hne
+  have hcore := sendConfigsCore_eq env cfg .user fwc stop priv eager configs st hg hv
+  rw [hacq] at hcore
+  have hcount : coreCount env cfg fwc stop priv eager configs st = n := by
+    unfold coreCount
+    simp only [hg, hv, hacq, Bool.false_eq_true, if_false]
+    exact genericCount_eq_n env cfg.ret .user _ stop eager configs _ _ n hd
+  refine ⟨navs, (acquireIfNeeded env cfg (configsTarget priv) st).1, n, h1, h2, h3 hacq, by rw [hcore]; exact hd, ?_⟩
+  intro k hk
+  obtain ⟨hl, hw, hb⟩ := faultState_obs env cfg.ret .user flt.point configs k (acquireIfNeeded env cfg (configsTarget priv) st).1
+  have hkl : k < configs.length := Nat.lt_of_lt_of_le hk hd.le
+  refine ⟨⟨faultState env cfg.ret .user flt.point configs k (acquireIfNeeded env cfg (configsTarget priv) st).1, 0⟩, _, ?_,
+    rfl, ?_, ?_, ?_, ?_, ?_⟩
+  · rw [sendConfigsF_eq]; simp only [hcount, hk, if_true]
+  · show (faultState ..).log = _
+    rw [hl, h1.1]; simp [List.append_assoc]
+  · show (faultState ..).writes.flatten = _
+    rw [hw, h1.2]
+  · intro e he
+    rcases List.mem_append.mp he with h | h
+    · rcases List.mem_append.mp h with h | h
+      · rw [h2 e h]; simp
+      · rw [entries_origin env .user _ _ e h]; simp
+    · rw [partialEntries_origin _ _ _ _ e h]; simp
+  · rw [userLines_append, userLines_none navs (fun e he => by rw [h2 e he]; simp)]
+    unfold userLines
+    rw [List.filter_eq_self.mpr (fun e he => by rw [entries_origin env .user _ _ e he]; rfl), entries_lines]
+    rfl
+  · show (faultState ..).belief = _
+    rw [hb]; exact h3 hacq
+
+/-- **send_commands (NetworkDriver) over a failing channel**: after the default-level navigation the run is the
+    GenericDriver run — failure at line `k` of the `n` the fault-free run sends: same class, the first `k` lines once
+    each in order, the partial line, nothing else. -/
+theorem fault_delivery_exact_commands (env : Env μ) (cfg : Cfg) (flt : Fault) (fwc : Fwc) (stop eager : Bool)
+    (commands : List Str) (st : St μ) (hne : commands ≠ []) (hacq : (acquireAppropriate env cfg st).2 = none) :
+    ∃ n, Delivered env cfg.ret .user (netFwc cfg.defaultMarkers fwc) stop eager commands (acquireAppropriate env cfg st).1
+        (sendCommands env cfg fwc stop eager commands st) n ∧
+      ∀ k, k < n → ∃ fs, sendCommandsF env cfg flt fwc stop eager commands ⟨st, k⟩ = .fault flt.kind fs ∧
+        fs.st.log = (acquireAppropriate env cfg st).1.log ++
+          entries env .user (commands.take k) (acquireAppropriate env cfg st).1.mode ++
+          partialEntries .user flt.point (finalMode env (commands.take k) (acquireAppropriate env cfg st).1.mode)
+            (commands.getD k []) ∧
+        fs.st.writes.flatten = (acquireAppropriate env cfg st).1.writes.flatten ++
+          wireOf cfg.ret (entries env .user (commands.take k) (acquireAppropriate env cfg st).1.mode) ++
+          partialWire cfg.ret flt.point (commands.getD k []) ∧
+        fs.st.belief = (acquireAppropriate env cfg st).1.belief := by
+  obtain ⟨n, hd, hf, _⟩ := fault_delivery_exact_generic env cfg.ret flt .user (netFwc cfg.defaultMarkers fwc) stop eager
+    commands (acquireAppropriate env cfg st).1 hne
+  refine ⟨n, ?_, ?_⟩
+  · have : sendCommands env cfg fwc stop eager commands st =
+        genericSendCommands env cfg.ret .user (netFwc cfg.defaultMarkers fwc) stop eager commands (acquireAppropriate env cfg st).1 := by
+      simp only [sendCommands, hacq]
+    rw [this]; exact hd
+  · intro k hk
+    have : sendCommandsF env cfg flt fwc stop eager commands ⟨st, k⟩ =
+        genericSendCommandsF env cfg.ret flt .user (netFwc cfg.defaultMarkers fwc) stop eager commands
+          ⟨(acquireAppropriate env cfg st).1, k⟩ := by
+      simp only [sendCommandsF, hacq]
+    rw [this]; exact hf k hk
+
+/-- **a channel failure inside `_abort_config`** (the run had stopped on a failed line): the exception surfaces, the
+    state is the fault-free state after the user lines plus the first `j` abort lines and the partial one — and the
+    privilege level the plan would have set afterwards is NOT set. -/
+theorem fault_in_abort (env : Env μ) (cfg : Cfg) (flt : Fault) (fwc : Fwc) (stop : Bool) (priv : Str) (eager : Bool)
+    (configs : List Str) (st : St μ)
+    (herr : (sendConfigsCore env cfg .user fwc stop priv eager configs st).err = none)
+    (hs : (stop && multiFailed (sendConfigsCore env cfg .user fwc stop priv eager configs st).resps) = true)
+    (j : Nat) (hj : j < abortCount env cfg (sendConfigsCore env cfg .user fwc stop priv eager configs st).st) :
+    sendConfigsF env cfg flt fwc stop priv eager configs ⟨st, coreCount env cfg fwc stop priv eager configs st + j⟩ =
+      .fault flt.kind ⟨abortFaultState env cfg flt.point j
+        (sendConfigsCore env cfg .user fwc stop priv eager configs st).st, 0⟩ := by
+  rw [sendConfigsF_eq]
+  simp only [Nat.lt_irrefl, Nat.add_sub_cancel_left, herr, hs, hj, and_self, if_true,
+    show ¬ (coreCount env cfg fwc stop priv eager configs st + j < coreCount env cfg fwc stop priv eager configs st) by omega,
+    if_false]
+
+/-- the direct abort plans (IOS-XR, EOS / NX-OS sessions): a failure at abort line `j` leaves the abort lines before it,
+    each once, and the partial one; the belief is still the configuration level -/
+theorem fault_in_abort_direct (env : Env μ) (cfg : Cfg) (pt : Point) (g : Option Str) (cmds : List Str) (b : Str)
+    (hp : cfg.abort = .direct g cmds b) (j : Nat) (st : St μ) :
+    (abortFaultState env cfg pt j st).log = st.log ++ entries env .abort (cmds.take j) st.mode ++
+        partialEntries .abort pt (finalMode env (cmds.take j) st.mode) (cmds.getD j []) ∧
+    (abortFaultState env cfg pt j st).writes.flatten = st.writes.flatten ++
+        wireOf cfg.ret (entries env .abort (cmds.take j) st.mode) ++ partialWire cfg.ret pt (cmds.getD j []) ∧
+    (abortFaultState env cfg pt j st).belief = st.belief := by
+  unfold abortFaultState; rw [hp]; exact faultState_obs ..
+
+/-- **a failure that is never reached changes nothing**: when the countdown outlasts every `send_input` call of the
+    run (user lines and abort lines), the run over the failing channel IS the fault-free run of `delivery_exact` -/
+theorem fault_free_agrees (env : Env μ) (cfg : Cfg) (flt : Fault) (fwc : Fwc) (stop : Bool) (priv : Str) (eager : Bool)
+    (configs : List Str) (st : St μ) (k : Nat)
+    (hk : coreCount env cfg fwc stop priv eager configs st +
+      abortCount env cfg (sendConfigsCore env cfg .user fwc stop priv eager configs st).st ≤ k) :
+    (sendConfigsF env cfg flt fwc stop priv eager configs ⟨st, k⟩).kind? = none ∧
+    (sendConfigsF env cfg flt fwc stop priv eager configs ⟨st, k⟩).state =
+      (sendConfigs env cfg fwc stop priv eager configs st).st := by
+  rw [sendConfigsF_eq]
+  have h1 : ¬ k < coreCount env cfg fwc stop priv eager configs st := by omega
+  have h2 : ¬ k - coreCount env cfg fwc stop priv eager configs st <
+      abortCount env cfg (sendConfigsCore env cfg .user fwc stop priv eager configs st).st := by omega
+  simp only [h1, h2, if_false, and_false, FOut.kind?, FOut.state, and_self]
+
+/-- `send_config` and the from-file variants over the failing channel are the list operations on `splitlines` of the
+    text (as in `send_config_eq_send_configs` / `from_file_eq`): the three theorems above cover them -/
+theorem fault_text_sources (env : Env μ) (cfg : Cfg) (flt : Fault) (fwc : Fwc) (stop : Bool) (priv : Str) (eager : Bool)
+    (text : Str) (fs : FSt μ) :
+    sendConfigF env cfg flt fwc stop priv eager text fs = sendConfigsF env cfg flt fwc stop priv eager (splitlines text) fs ∧
+    sendConfigsFromFileF env cfg flt fwc stop priv eager text fs =
+      sendConfigsF env cfg flt fwc stop priv eager (splitlines text) fs ∧
+    genericSendCommandsFromFileF env cfg.ret flt fwc stop eager text fs =
+      genericSendCommandsF env cfg.ret flt .user fwc stop eager (splitlines text) fs := by
+  simp only [sendConfigF, sendConfigsFromFileF, genericSendCommandsFromFileF, fileLines_eq_splitlines, and_self]
+
+/-- non-vacuity: the IOS-XR-like run of `exRun` (navigation needed, stop_on_failed, failing third line) with the
+    channel failing — after line 1 was written (timeout), at line 2 after its return (connection error), and in
+    the abort line itself; and a countdown that is never reached -/
+example :
+    (sendConfigsF exEnv exCfg ⟨.afterLine, .timeout⟩ .none true "configuration_exclusive".toList false
+      ["a".toList, [], "bad".toList, "c".toList] ⟨{ belief := "privilege_exec".toList, mode := "privilege_exec".toList }, 1⟩).kind?
+      = some .timeout ∧
+    (sendConfigsF exEnv exCfg ⟨.afterReturn, .conn⟩ .none true "configuration_exclusive".toList false
+      ["a".toList, [], "bad".toList, "c".toList] ⟨{ belief := "privilege_exec".toList, mode := "privilege_exec".toList }, 2⟩).state.writes.flatten
+      = encode "\nconfigure exclusive\n\na\n\nbad\n".toList ∧
+    (sendConfigsF exEnv exCfg ⟨.beforeWrite, .conn⟩ .none true "configuration_exclusive".toList false
+      ["a".toList, [], "bad".toList, "c".toList] ⟨{ belief := "privilege_exec".toList, mode := "privilege_exec".toList }, 3⟩).state.belief
+      = "configuration_exclusive".toList ∧
+    (sendConfigsF exEnv exCfg ⟨.beforeWrite, .conn⟩ .none true "configuration_exclusive".toList false
+      ["a".toList, [], "bad".toList, "c".toList] ⟨{ belief := "privilege_exec".toList, mode := "privilege_exec".toList }, 4⟩).kind?
+      = none := by decide
+
 
 end Scrapli.Send
